@@ -163,5 +163,68 @@ def gen_flap(rng, tier):
     return cfg + "|" + ";".join(ops)
 
 
+def gen_cookie(rng, tier):
+    """DNS cookies over UDP: a server that answers BADCOOKIE k = 1..12 times in a row, echoing the
+    client cookie, with the same / a changing / alternating server cookie, then answers or stays
+    silent.  At most COOKIE_RESEND_MAX re-sends may come from that and the last one must go over TCP
+    (one server: the model-side driver has to know which TCP connection a deferred frame sits on)."""
+    T = rng.choice([1, 1, 2, 3])
+    M = rng.choice([50, 100, 250])
+    cfg = "servers=1 tries=%d timeout=%d maxtimeout=%d idseq=%d qcachettl=0 seed=%d" % (
+        T, rng.choice([250, 500, 2000]), M, rng.choice([1, 100, 65530]), rng.randint(1, 10 ** 6))
+    if rng.random() < 0.3:
+        cfg += " flags=stayopen"
+    ops = []
+    nq = rng.choice([1, 1, 2, 3])
+    for i in range(nq):
+        ops.append("send %d q%d.example IN A rd edns" % (i, i))
+    k = rng.choice([1, 2, 3, 4, 4, 5, 6, 8, 12])
+    pat = rng.choice(["same", "changing", "alternating", "mixed"])
+    fixed = "%016x" % rng.getrandbits(64)
+    other = "%016x" % rng.getrandbits(64)
+
+    def server_cookie(i):
+        if pat == "same":
+            return fixed
+        if pat == "changing":
+            return "%016x" % (rng.getrandbits(63) | 1)
+        if pat == "alternating":
+            return (fixed, other)[i % 2]
+        return rng.choice([fixed, other, "%016x" % (rng.getrandbits(63) | 1)])
+    for i in range(k):
+        sp = "rcode=23,cookie=echo:%s" % server_cookie(i)
+        r = rng.random()
+        if r < 0.1:
+            sp += ",dup=%d" % rng.choice([2, 3])
+        if r < 0.6:
+            ops.append("rspall %s" % sp)
+        else:
+            ops.append("rsp %s %s" % (rng.choice(["xl", "xl-1"]), sp))
+            if rng.random() < 0.3:       # something else in the same read
+                ops.append("rsp xl %s" % rng.choice(["rcode=SERVFAIL,cookie=echo:" + fixed, "rcode=23,cookie=bad", "rcode=23",
+                                                     "rcode=NOERROR,trunc=5", "rcode=REFUSED"]))
+        ops.append("proc")
+        ops.append("proc")                   # completes a TCP connect started by the fallback
+        if rng.random() < 0.12:
+            ops.append("adv %d" % rng.choice([1, M // 2, M]))
+            ops.append("proc")
+    end = rng.random()
+    if end < 0.4:
+        ops.append("rspall an=A:1.2.3.4,cookie=echo:%s" % fixed)
+        ops.append("proc")
+    elif end < 0.55:
+        ops.append("rspall an=A:1.2.3.4")          # no cookie from a server that has shown one: dropped on UDP
+        ops.append("proc")
+    for _ in range(T + 4):
+        ops.append("adv %d" % M)
+        ops.append("proc")
+    ops.append("qlen")
+    return cfg + "|" + ";".join(ops)
+
+
 def gen(rng, tier, n):
-    return [gen_flap(rng, tier) if rng.random() < 0.12 else gen_case(rng, tier) for _ in range(n)]
+    out = []
+    for _ in range(n):
+        r = rng.random()
+        out.append(gen_flap(rng, tier) if r < 0.12 else gen_cookie(rng, tier) if r < 0.22 else gen_case(rng, tier))
+    return out
